@@ -33,7 +33,7 @@ type Fn struct {
 	Outer *Fn // enclosing function of a literal
 	// AtomRename maps normalised atom keys to role names (see Roles).
 	AtomRename func(string) string
-	defCache map[*types.Var]defInfo
+	defCache   map[*types.Var]defInfo
 	strictLoop bool
 	// ExpandPreds makes FormulaOf replace calls of one-line predicate helpers by their bodies.
 	ExpandPreds bool
